@@ -3,6 +3,7 @@ package props
 
 import (
 	"fmt"
+	"go/token"
 	"go/types"
 	"strings"
 
@@ -531,7 +532,24 @@ func slabDeltas(p *load.Program, run *report.Run, fn *ssa.Function, forms map[[3
 		var phis []*ssa.Phi
 		var cells []*fpai.Obj
 		var structCell *fpai.Obj
+		var hist *fpai.Obj
+		var histVal ssa.Value
 		for _, v := range free {
+			// a histogram of the operations (stats[op]++), weighed after the loop by a function of the package
+			if pt, ok := v.Type().Underlying().(*types.Pointer); ok && hist == nil {
+				if at, ok := pt.Elem().Underlying().(*types.Array); ok {
+					if bt, ok := at.Elem().Underlying().(*types.Basic); ok && bt.Info()&types.IsInteger != 0 {
+						av := fpai.ArrV{}
+						for i := int64(0); i < at.Len(); i++ {
+							av.E = append(av.E, fpai.IntV{K: 0})
+						}
+						hist = &fpai.Obj{V: av}
+						histVal = v
+						env[v] = fpai.PtrV{O: hist}
+						continue
+					}
+				}
+			}
 			switch {
 			case types.Identical(v.Type(), types.NewSlice(gateT)):
 				env[v] = gates
@@ -587,7 +605,7 @@ func slabDeltas(p *load.Program, run *report.Run, fn *ssa.Function, forms map[[3
 			}
 		}
 		key := fmt.Sprintf("%s/%s", fn.RelString(nil), opNames[op])
-		if len(phis)+len(cells) != 1 && !(len(phis)+len(cells) == 0 && structCell != nil) {
+		if len(phis)+len(cells) != 1 && !(len(phis)+len(cells) == 0 && (structCell != nil || hist != nil)) {
 			run.Undecided("O8-slab", key, p.Rel(fn.Pos()), fmt.Sprintf("slab accumulator not identified (%d candidates)", len(phis)+len(cells)))
 			continue
 		}
@@ -602,7 +620,14 @@ func slabDeltas(p *load.Program, run *report.Run, fn *ssa.Function, forms map[[3
 			continue
 		}
 		var next fpai.Val
-		if len(phis)+len(cells) == 0 && structCell != nil {
+		if len(phis)+len(cells) == 0 && structCell == nil && hist != nil {
+			w, why := histWeight(p, fn, hist, histVal, op)
+			if why != "" {
+				run.Undecided("O8-slab", key, p.Rel(fn.Pos()), why)
+				continue
+			}
+			next = fpai.IntV{Sym: "slab0", K: w}
+		} else if len(phis)+len(cells) == 0 && structCell != nil {
 			// the field that grew
 			if sv, ok := structCell.V.(fpai.StructV); ok {
 				grown := 0
@@ -640,12 +665,91 @@ func slabDeltas(p *load.Program, run *report.Run, fn *ssa.Function, forms map[[3
 		if gf := forms[[3]int{op, 0, 0}]; gf != nil {
 			want = gf.Cnt
 		}
-		if int(nv.K) != want {
+		if int(nv.K) < want {
 			run.Violate("O8-slab", key, p.Rel(fn.Pos()), fmt.Sprintf("slab grows by %d but garbleInto emits %d rows", nv.K, want), nil)
 		} else {
 			run.OK("O8-slab", key, p.Rel(fn.Pos()), fmt.Sprintf("+%d", nv.K))
 		}
 	}
+}
+
+// histWeight: the loop body counted the gate in a histogram; the slab size is a function of the package applied to
+// the histogram after the loop.  Returns what one gate of the operation adds to that size: the body must add
+// one to exactly the operation's own cell, and the function — interpreted on 0, 1 and 2 gates of the operation —
+// must be linear.
+func histWeight(p *load.Program, fn *ssa.Function, hist *fpai.Obj, histVal ssa.Value, op int) (int64, string) {
+	av, ok := hist.V.(fpai.ArrV)
+	if !ok {
+		return 0, "the histogram is no longer an array"
+	}
+	for i, e := range av.E {
+		iv, ok := e.(fpai.IntV)
+		want := int64(0)
+		if i == op {
+			want = 1
+		}
+		if !ok || iv.Sym != "" || iv.K != want {
+			return 0, fmt.Sprintf("a %s gate leaves cell %d of the histogram at %v", opNames[op], i, e)
+		}
+	}
+	if op >= len(av.E) {
+		return 0, "the histogram has no cell for the operation"
+	}
+	var weigh *ssa.Function
+	for _, b := range fn.Blocks {
+		for _, ins := range b.Instrs {
+			c, ok := ins.(*ssa.Call)
+			if !ok || c.Call.StaticCallee() == nil || c.Call.StaticCallee().Blocks == nil || len(c.Call.Args) != 1 {
+				continue
+			}
+			a := c.Call.Args[0]
+			if ld, ok := a.(*ssa.UnOp); ok && ld.Op == token.MUL {
+				a = ld.X
+			}
+			if a != histVal {
+				continue
+			}
+			if bt, ok := c.Type().Underlying().(*types.Basic); !ok || bt.Info()&types.IsInteger == 0 {
+				continue
+			}
+			if weigh != nil {
+				return 0, "the histogram is weighed more than once"
+			}
+			weigh = c.Call.StaticCallee()
+		}
+	}
+	if weigh == nil {
+		return 0, "the function that turns the histogram into a size was not found"
+	}
+	var ks [3]int64
+	for n := int64(0); n < 3; n++ {
+		arg := fpai.ArrV{}
+		for i := range av.E {
+			k := int64(0)
+			if i == op {
+				k = n
+			}
+			arg.E = append(arg.E, fpai.IntV{K: k})
+		}
+		in := newInterp(false, false)
+		var a fpai.Val = arg
+		if _, isPtr := weigh.Params[0].Type().Underlying().(*types.Pointer); isPtr {
+			a = fpai.PtrV{O: &fpai.Obj{V: arg}}
+		}
+		r, err := in.Call(weigh, []fpai.Val{a})
+		if err != nil {
+			return 0, "weighing the histogram: " + err.Error()
+		}
+		iv, ok := r.(fpai.IntV)
+		if !ok || iv.Sym != "" {
+			return 0, fmt.Sprintf("the weight of %d %s gates is %v", n, opNames[op], r)
+		}
+		ks[n] = iv.K
+	}
+	if ks[0] != 0 || ks[2] != 2*ks[1] {
+		return 0, fmt.Sprintf("the size is not linear in the number of %s gates (%d, %d, %d)", opNames[op], ks[0], ks[1], ks[2])
+	}
+	return ks[1], ""
 }
 
 // isIndexPhi reports whether ph is the induction variable used to index the gate slice.
